@@ -149,33 +149,29 @@ func (chain *Blockchain) Extends(block, target *hotstuff.Block) bool {
 	return ok && current.Hash() == target.Hash()
 }
 
-// PruneToHeight prunes the blockchain to the given height.
-func (chain *Blockchain) PruneToHeight(committedHeight, height hotstuff.View) (forkedBlocks []*hotstuff.Block) {
+// PruneToHeight prunes the blockchain to the given height and returns the blocks above the
+// previous prune height that are not on the chain of the given committed block.
+func (chain *Blockchain) PruneToHeight(committed *hotstuff.Block, height hotstuff.View) (forkedBlocks []*hotstuff.Block) {
 	chain.mut.Lock()
 	defer chain.mut.Unlock()
 
-	committedViews := make(map[hotstuff.View]bool)
-	committedViews[committedHeight] = true
-	for h := committedHeight; h >= chain.pruneHeight; {
-		block, ok := chain.blockAtHeight[h]
-		if !ok {
-			break
-		}
+	// Follow the committed chain by parent hash from the committed block itself: the height
+	// index holds one block per view and may name a block of another branch.
+	committedBlocks := make(map[hotstuff.Hash]bool)
+	for block := committed; block != nil && block.View() > chain.pruneHeight; {
+		committedBlocks[block.Hash()] = true
 		parent, ok := chain.blocks[block.Parent()]
-		if !ok || parent.View() < chain.pruneHeight {
+		if !ok || parent.View() >= block.View() {
 			break
 		}
-		h = parent.View()
-		committedViews[h] = true
+		block = parent
 	}
 
 	for h := height; h > chain.pruneHeight; h-- {
-		if !committedViews[h] {
-			block, ok := chain.blockAtHeight[h]
-			if ok {
-				chain.logger.Debugf("PruneToHeight: found forked block: %v", block)
-				forkedBlocks = append(forkedBlocks, block)
-			}
+		block, ok := chain.blockAtHeight[h]
+		if ok && !committedBlocks[block.Hash()] {
+			chain.logger.Debugf("PruneToHeight: found forked block: %v", block)
+			forkedBlocks = append(forkedBlocks, block)
 		}
 		delete(chain.blockAtHeight, h)
 	}
